@@ -17,7 +17,12 @@ func (m Meta) RawBytes(sessionLayout bool) []byte {
 	b := make([]byte, 32)
 	b[0] = m.Proto
 	b[1] = m.Byte1
-	put32 := func(off int, v uint32) { b[off] = byte(v >> 24); b[off+1] = byte(v >> 16); b[off+2] = byte(v >> 8); b[off+3] = byte(v) }
+	put32 := func(off int, v uint32) {
+		b[off] = byte(v >> 24)
+		b[off+1] = byte(v >> 16)
+		b[off+2] = byte(v >> 8)
+		b[off+3] = byte(v)
+	}
 	put16 := func(off int, v uint16) { b[off] = byte(v >> 8); b[off+1] = byte(v) }
 	put32(2, m.Timestamp)
 	put32(6, m.SessionID)
